@@ -241,6 +241,16 @@ func seqProbe() string {
 	return b.String()
 }
 
+// seqCastProbe: the sequence decoder with the cast flag.
+func seqCastProbe() string {
+	var b strings.Builder
+	for _, d := range c18docs {
+		ms, err := mxj.NewMapXmlSeq([]byte(d), true)
+		b.WriteString(jv.Fp(ms) + fmt.Sprint(err) + "\n")
+	}
+	return b.String()
+}
+
 func jsonProbe() string {
 	var b strings.Builder
 	rd := strings.NewReader(" { \"a\" : [ 1 , \"x y\" ] }\n {\"b\":\" \\t \"} ")
@@ -509,9 +519,20 @@ func (c18) Case(c *core.Ctx) {
 		if sc.class != "fieldsep" { // (the probe is written with the current separator; a value such as 2.5 contains the separator ".")
 			qBefore = queryProbe()
 		}
+		seqCastBefore := ""
+		if strings.HasPrefix(sc.name, "SetCheckTagToSkipFunc") {
+			seqCastBefore = seqCastProbe() // the hook is documented for the Map decoder only
+		}
 		sc.apply()
 		sc.model(model)
 		hist = append(hist, sc.name)
+		if seqCastBefore != "" {
+			c.Count("noninterference-probes:seq-cast")
+			if after := seqCastProbe(); after != seqCastBefore {
+				c.Violate("c18-interference:skip-hook-changes-sequence-decoder", sc.name+" changed what the sequence decoder returns with the cast flag (the hook is documented for the Map decoder only)", core.D{"history": hist, "before": seqCastBefore, "after": after})
+				return
+			}
+		}
 		if qBefore != "" {
 			c.Count("noninterference-probes:queries")
 		}
